@@ -117,6 +117,18 @@ fn main() {
                 _ => 2,
             }
         }
+        Some("serial") => {
+            // simcheck serial <PROP> <batch_idx> <from> <to> [tier]   (single-threaded, for the Miri engine)
+            let prop = args.get(2).cloned().unwrap_or_default();
+            let bi: usize = args.get(3).and_then(|s| s.parse().ok()).unwrap_or(0);
+            let from: u64 = args.get(4).and_then(|s| s.parse().ok()).unwrap_or(0);
+            let to: u64 = args.get(5).and_then(|s| s.parse().ok()).unwrap_or(0);
+            let tier = args.get(6).cloned().unwrap_or_else(|| "quick".into());
+            match checks::get(&prop, &tier) {
+                Some(c) if bi < c.batches.len() => driver::serial_runs(&c, bi, from, to, seed),
+                _ => 2,
+            }
+        }
         Some("one") => {
             // debug: simcheck one <PROP> <batch_idx> <run_idx> [tier]
             let prop = args.get(2).cloned().unwrap_or_default();
